@@ -5,6 +5,7 @@
 """
 import os, sys, json, time, shutil, glob, re
 from vlib import *   # noqa
+import concurrent.futures as cf
 
 ASSUME_COMMON = [
     "TLC/SANY and the CommunityModules Json/IOUtils readers are correct",
@@ -80,6 +81,53 @@ def flow_trace(ctx, suite, nq, nt, profile="release", chunk=4000, extra=(), labe
     return out
 
 
+def flow_programs(ctx, suite, parts_q, parts_t, n_q, n_t, profile="release", extra=(), label=None, timeout=None):
+    """Stateful traces: `parts` independent programs of n events each, one trace file and one TLC run per program."""
+    parts = parts_q if ctx.quick() else parts_t
+    n = n_q if ctx.quick() else n_t
+    label = label or suite
+    t0 = time.time()
+    files = []
+    params = {"suite": suite, "profile": profile, "seed": ctx.seed, "n": n, "tier": ctx.tier, "extra": list(extra), "parts": parts}
+
+    def gen(i):
+        out = f"{ctx.dir}/{label}-{profile}-p{i}.ndjson"
+        hang = run_driver(profile, suite, out, ctx.seed, n, ctx.tier, list(extra) + ["--pool", pool_file(), "--part", str(i), "--parts", str(parts)])
+        return out, hang
+
+    build_harness(profile)
+    pool_file()
+    with cf.ThreadPoolExecutor(max_workers=MAXJVM) as ex:
+        for out, hang in ex.map(gen, range(parts)):
+            files.append(out)
+            for h in (hang or []):
+                ctx.violations.append({"flow": "V", "suite": suite, "op": h.get("op"), "event": h, "why": "hang", "params": params})
+    res = validate_traces(files, tag=ctx.pid, timeout=timeout or (900 if ctx.quick() else 7200))
+    ctx.states += res["distinct"]
+    ctx.transitions += res["consumed"]
+    ctx.traces += res["consumed"]
+    opcount = {}
+    for fpath in files:
+        with open(fpath) as f:
+            for i, line in enumerate(f):
+                m = re.search(r'"op":"([^"]+)"', line)
+                k = m.group(1) if m else "?"
+                m2 = re.search(r'"fn":"([^"]+)"', line)
+                if m2:
+                    k += "/" + m2.group(1)
+                opcount[k] = opcount.get(k, 0) + 1
+                if fpath == files[0] and i in (1, 7) and len(ctx.samples) < 6:
+                    ctx.samples.append(json.loads(line))
+    for b in res["bad"]:
+        ev = fetch_event(b["file"], b["seq"])
+        pr = dict(params)
+        pr["file"] = os.path.basename(b["file"])
+        ctx.violations.append({"flow": "V", "suite": suite, "op": b["op"], "event": ev, "why": b["why"], "params": pr})
+    ctx.flows.append({"flow": "V", "suite": suite, "profile": profile, "programs": parts, "records": res["records"], "validated": res["consumed"],
+                      "mismatches": len(res["bad"]), "ops": opcount, "wall_s": round(time.time() - t0, 1)})
+    return files
+
+
 # ------------------------------------------------------------------------------------------------ flow: Level-B / generic model check
 def flow_model(ctx, module, cfg=None, workers=8, timeout=1200, xmx="6g", label=None, must_hold=True, consts=None):
     """Model-check a specification module with TLC. A failure is reported as MODEL-FAIL in the evidence (and makes the
@@ -151,6 +199,7 @@ def p_C11(ctx):
 
 def p_C01(ctx):
     flow_trace(ctx, "pairing", 330, 6000, chunk=24, extra=["--focus", "laws"])
+    flow_programs(ctx, "gmachine", 6, 28, 200, 1200, extra=["--focus", "pair"], label="gm-pair")
 
 
 def p_C02(ctx):
@@ -159,6 +208,52 @@ def p_C02(ctx):
 
 def p_C03(ctx):
     flow_trace(ctx, "pairing", 420, 8000, chunk=30, extra=["--focus", "agree"])
+    flow_programs(ctx, "gmachine", 6, 28, 250, 1500, extra=["--focus", "prep"], label="gm-prep")
+
+
+def p_C16(ctx):
+    flow_programs(ctx, "gmachine", 12, 42, 400, 3000, extra=["--focus", "group"], label="gm-group")
+    flow_programs(ctx, "gmachine", 6, 28, 250, 1500, extra=["--focus", "pair"], label="gm-pair")
+
+
+def p_C07(ctx):
+    flow_programs(ctx, "fmachine", 14, 56, 1500, 12000)
+
+
+def p_C17(ctx):
+    flow_trace(ctx, "tower", 700, 14000, chunk=50)
+
+
+def flow_dual(ctx, suite, nq, nt, chunk, extra=(), label=None):
+    """C18: the same inputs through the release and the debug-assertion build; identical traces, both accepted."""
+    a = flow_trace(ctx, suite, nq, nt, profile="release", chunk=chunk, extra=extra, label=label)
+    n = nq if ctx.quick() else nt
+    b = f"{ctx.dir}/{label or suite}-dev.ndjson"
+    ex = list(extra) + ["--pool", pool_file()]
+    hang = run_driver("dev", suite, b, ctx.seed, n, ctx.tier, ex, timeout=3600)
+    for h in (hang or []):
+        ctx.violations.append({"flow": "V", "suite": suite, "op": h.get("op"), "event": h, "why": "hang-dev",
+                               "params": {"suite": suite, "profile": "dev", "seed": ctx.seed, "n": n, "tier": ctx.tier, "extra": list(extra)}})
+    # the dev trace: no panic (every dev event is compared with the validated release event)
+    compare_profiles(ctx, label or suite, a, b)
+
+
+def p_C18(ctx):
+    tw = twist_file(ctx, 2 if ctx.quick() else 8)
+    flow_dual(ctx, "fp", 6000, 100000, 6000)
+    flow_dual(ctx, "fq2", 3000, 50000, 3000)
+    flow_dual(ctx, "conv", 10 ** 9, 10 ** 9, 4000)
+    flow_dual(ctx, "sqrt", 800, 8000, 400)
+    flow_dual(ctx, "decode", 10 ** 9, 10 ** 9, 700)
+    flow_dual(ctx, "affine", 10 ** 9, 10 ** 9, 60, extra=["--in", tw])
+    flow_dual(ctx, "group", 900, 12000, 300)
+    flow_dual(ctx, "encode", 360, 3600, 180)
+    flow_dual(ctx, "gt", 120, 1500, 60)
+    flow_dual(ctx, "pairing", 90, 900, 24, extra=["--focus", "agree"], label="pairing-agree")
+    flow_dual(ctx, "pairing", 60, 600, 24, extra=["--focus", "laws"], label="pairing-laws")
+    flow_dual(ctx, "tower", 100, 1000, 50)
+    flow_dual(ctx, "gmachine", 300, 3000, 10 ** 9, extra=["--focus", "pair"], label="gmachine")
+    flow_dual(ctx, "fmachine", 1500, 15000, 10 ** 9, label="fmachine")
 
 
 def compare_profiles(ctx, suite, a, b):
@@ -188,6 +283,7 @@ PROPS = {
     "C04": p_C04,
     "C05": p_C05,
     "C06": p_C06,
+    "C07": p_C07,
     "C08": p_C08,
     "C09": p_C09,
     "C10": p_C10,
@@ -196,18 +292,29 @@ PROPS = {
     "C13": p_C13,
     "C14": p_C14,
     "C15": p_C15,
+    "C16": p_C16,
+    "C17": p_C17,
+    "C18": p_C18,
 }
 
-HOOK_COMMITS = []
+HOOK_COMMITS = ["638413c"]
 
 TV = "trace validation against an executable TLA+ specification (TLC)"
 META = {
     "C06": {"technique": TV + " of Fq/Fr operations in every operator form on TLC-generated Montgomery-boundary operand pools",
             "text": "Every recorded Fq/Fr operation (all six operator forms, neg, inverse, pow, is_zero, is_even, ==) is recomputed by TLC from the logged canonical encodings with the Level-A field specification (integers mod q / r) and must match byte for byte; operands come from a TLC-generated pool of values whose Montgomery limbs sit on carry boundaries, designated pairs summing to p and 2^256 in the Montgomery domain, and random values. Sampling at 256 bits, exhaustive only in the scaled-down Level-B model."},
+    "C01": {"technique": TV + " of all three pairing entry points: bilinearity via discrete logarithms, additivity relations, identities in every form; plus stateful register-machine programs",
+            "text": "Every recorded pairing (pairing, fast_pairing, G2Prepared::pairing) must equal e(P1,P2)^(ab) computed by TLC from the textbook pairing of the generators, with the operand discrete logarithms a, b themselves verified by textbook scalar multiplication of the abstracted operands; additivity in both arguments, e(cP,dQ) = e(P,Q)^(cd) and g^(r-1) g = 1 are checked between recorded values with the specification's F_q^12 arithmetic; identity arguments in the forms (0,1,0), (x,y,0) from P-P and arbitrary (x,y,0); boundary scalars; register-machine programs interleave pairings with group operations."},
+    "C02": {"technique": TV + " against the naive textbook R-ate pairing (Miller function on E(F_q^12), Frobenius lines, plain final exponentiation) evaluated by TLC, 384 bytes",
+            "text": "For recorded pairings of aP1, bP2 (a, b non-zero: boundary, pool and random; operands in representations A, J, S) TLC evaluates the full textbook R-ate pairing of the standard on the abstracted operands (no shared formula with the code: polynomial F_q[w]/(w^12+2), affine lines with inversions, unsplit 2811-bit exponent) for one entry point per pair and e(P1,P2)^(ab) for all three, and compares all 384 bytes; the specification itself reproduces the standard's published vector (MC_LevelA)."},
+    "C03": {"technique": TV + " of entry-point agreement over representation pairs, prepared-value reuse, and register-machine histories with prepared values",
+            "text": "For each (P,Q) the three entry points are recorded on several representation pairs (A, J, S, identity forms) and all must equal the same specification value; prepared values are reused for several G1 inputs in two orders and through clone() while the source variable is overwritten; register-machine programs interleave prepare / prepared-pairing / clone with mutations of the source registers and explicit rescalings, the specification's prepared register holding only the value captured at preparation."},
     "C04": {"technique": TV + " of G1/G2 add/sub/neg on every relation x representation combination, against the affine chord-and-tangent law",
             "text": "Recorded G1/G2 additions, subtractions, negations and commutativity/associativity/neutrality triples, with operands in every representation (z=1, library Jacobian, lambda-rescaled through G::new, identity as (0,1,0), as (x,y,0) left by P-P and as arbitrary (x,y,0)) and every relation (independent, equal, opposite, identity on either side, doubled), are abstracted by the specification itself (x/z^2, y/z^3 in TLA+) and compared with the textbook affine law; every result triple must satisfy y^2 = x^3 + b z^6; sampled events also check the logged discrete logarithms by textbook double-and-add."},
     "C05": {"technique": TV + " of P*k and k*P against affine double-and-add evaluated by TLC",
             "text": "Recorded scalar multiplications (both operand orders) with boundary scalars (0, 1, 2, r-1, r-2, (r+-1)/2, 2^i, 2^i-1, long runs, Montgomery-boundary pool, random) on points in every representation including identity forms are recomputed by TLC with affine double-and-add; module laws ((s+t)P, (st)P, 0P, 1P, (r-1)P, (r-1)P+P = O) are checked between recorded results and against the specification."},
+    "C07": {"technique": TV + " of random programs over Fr/Fq/Fq2 registers (stateful register machine in TLA+)",
+            "text": "Random programs compose every public producer of a field element (zero, one, from_slice/TryFrom of every length, interpret, from_str, from_hash, Fr::random on constant/all-ones/counter/PRNG streams, every operator, neg, inverse, pow, sqrt, set_bit for indices 0..300, real/imaginary/new) in arbitrary order; after every step the specification, which computes the value from its own abstract registers, requires the encoding to be below the modulus and equal to its value, is_zero to hold exactly for 0 and the logged == row against all live registers to equal value equality; a hang is reported by a watchdog."},
     "C08": {"technique": TV + " of all six point decoders and Fq2::from_slice on malformed inputs, recorded under both build profiles",
             "text": "Every decoder is run on every length 0..140 (three fills), valid encodings offered to every decoder, truncations/extensions, single-bit and single-byte corruptions, prefix bytes, coordinate limbs replaced by limb+q, q and 2^256-1, small x with x+q, random x; TLC decides each input with the acceptance predicate of the specification (length, prefix, limbs below q, on curve, [r]P = O for G2, re-encoding equals input). The same inputs are recorded by the release and the debug-assertion builds of the same driver; the two traces must be identical, contain no panic, and both are validated."},
     "C09": {"technique": "TLC-generated twist points (Tonelli-Shanks, cofactor clearing) replayed into AffineG1/AffineG2::new and the G2 decoders; verdicts validated by TLC",
@@ -216,8 +323,16 @@ META = {
             "text": "For P = k*generator and -P (both parities of y) in representations A, J, S the recorded raw / 0x04 / 0x02-0x03 encodings must equal the specification's encoding of the abstract point (imaginary part first, parity of the real part), decode back to the same point, and anchor events compare the abstract point with the textbook k*P computed by TLC."},
     "C14": {"technique": TV + " of Fq::sqrt / Fq2::sqrt (soundness by squaring, completeness by the Euler criterion evaluated by TLC)",
             "text": "Recorded square roots of 0, 1, -1, -2, small integers and their negatives, squares, negated squares, arbitrary elements, zero-imaginary and purely imaginary Fq2 elements, squares and squares times the non-square u: Some(s) must satisfy s*s = x and None must coincide with the Euler criterion (x^((q^2-1)/2) in Fq2) evaluated by TLC; compressed decoding of x-coordinates of real points must succeed for both prefixes."},
+    "C16": {"technique": "stateful trace validation: TLA+ register machine tracking abstract point and discrete logarithm of every register",
+            "text": "Random programs (small scalar alphabet {0,1,2,r-1} and arbitrary scalars) over 4 G1, 4 G2, 3 Fr, 3 Gt and 2 prepared registers apply add, sub, neg, scalar multiplication in both orders, normalize, affine and encode/decode round trips, copies, pairings through all entry points and Gt arithmetic. The specification computes each new abstract value from its own registers (affine law, dlog arithmetic mod r) and requires the logged Jacobian triple to denote it, the encoding, is_zero and the full == row to be those predicted by the discrete logarithms alone, pairing bytes to equal e(P1,P2)^(k_p k_q), and sampled registers to be indistinguishable (==, encodings) from a freshly computed k*generator."},
+    "C17": {"technique": TV + " of hook-exposed tower operations, final exponentiations and Miller loops against F_q[w]/(w^12+2)",
+            "text": "Through the cfg-guarded re-exports, F_q^12 mul/sqr/inverse/Frobenius(1,2,3,6)/mul_015/pow(u128)/scale/mul_by_nonresidue and F_q^4 mul/sqr/inverse/mul_1/frobenius codes on random, sparse, subfield, unitary, zero elements are validated against polynomial arithmetic; final_exponentiation(x) and final_exp(x) must both equal x^((q^12-1)/r) for arbitrary non-zero x (None for 0); the chain constants must be t, 6t+2, 6t^2+1, 6t+5, 9 and the signed digits must expand 6t+2; both Miller loops, final-exponentiated by the specification, must equal the textbook pairing."},
+    "C18": {"technique": "dual-profile trace recording (release vs dev with debug-assertions and overflow-checks) + trace validation by TLC",
+            "text": "The driver is built twice from the same source; samples of the input classes of every other property (field pools, conversions, malformed decoder inputs, twist points, group/pairing/tower operations, register-machine programs) are recorded under both profiles; the traces must be identical event by event, contain no panic, and the release trace is validated by the trace specification (so identical cannot mean identically wrong)."},
     "C15": {"technique": TV + " of ==, normalize and affine conversion on every representation pair",
             "text": "Recorded equality tests (with reverse and reflexive), normalisations and affine round trips on operands in every representation and relation (equal point/other representative, opposite, identity forms, rescaled by -1) are compared with equality of the abstract points computed by the specification; normalize must yield z = 1 for non-identity points."},
+    "C11": {"technique": TV + " of Gt mul/pow/inverse/one/== against F_q[w]/(w^12+2) evaluated by TLC",
+            "text": "Recorded Gt products, powers (boundary and random exponents), inverses, one and equality tests on pairing values, their products, powers and inverses are recomputed by TLC in the polynomial representation of F_q^12; group and exponent laws are checked between recorded values and anchored to the specification; every 32-byte limb must be below q."},
     "C12": {"technique": TV + " of Fq2 operations against Fq[u]/(u^2+2)",
             "text": "Every recorded Fq2 operation (all operator forms, neg, parts, new, from_slice, ==, ring laws, and the doubling of (x,y,1) observed through G2 accessors) is recomputed by TLC in Fq[u]/(u^2+2) from the logged encodings; components from the boundary pool, zero components and random values."},
     "C13": {"technique": TV + " of byte/decimal/hash conversions and set_bit against n mod p",
@@ -284,7 +399,10 @@ def replay_file(path):
     p = r.get("params") or {}
     if r.get("flow") == "V":
         ctx = Ctx(pid + "-replay", p.get("tier", "quick"), p.get("seed", 1))
-        flow_trace(ctx, p["suite"], p["n"], p["n"], profile=p.get("profile", "release"), extra=p.get("extra", ()))
+        if "parts" in p:
+            flow_programs(ctx, p["suite"], p["parts"], p["parts"], p["n"], p["n"], profile=p.get("profile", "release"), extra=p.get("extra", ()))
+        else:
+            flow_trace(ctx, p["suite"], p["n"], p["n"], profile=p.get("profile", "release"), extra=p.get("extra", ()))
         same = [v for v in ctx.violations if v.get("op") == r.get("op")]
         print(f"replay of {path}: {len(ctx.violations)} mismatching event(s), {len(same)} with op {r.get('op')}")
         if same:
